@@ -46,6 +46,63 @@ def _work(i):
     return i, res
 
 
+def _child(i, conn):
+    try:
+        res = _work(i)[1]
+    except BaseException as e:  # noqa
+        res = dict(paths=[], complete=False, stats={}, fns=[], error=f"{type(e).__name__}: {e}", smt={}, wall=0.0, case=CASES[i][0])
+    try:
+        conn.send(res)
+    except BaseException as e:  # noqa
+        conn.send(dict(paths=[], complete=False, stats={}, fns=[], error=f"result not transferable: {type(e).__name__}: {e}", smt={}, wall=0.0,
+                       case=CASES[i][0]))
+    conn.close()
+
+
+def run_cases(jobs, hard_timeout_s):
+    """one forked process per case (fresh solver state, hard wall-clock limit); a process that dies without a result (a native crash in
+    the solver library) is retried once and otherwise reported as an error of that case -- never silently dropped, never a hang"""
+    from multiprocessing.connection import wait
+    ctx = mp.get_context("fork")
+    _init_worker()
+    results = [None] * len(CASES)
+    todo = [(i, 0) for i in range(len(CASES))][::-1]
+    running = {}  # conn -> (proc, i, attempt, t0)
+
+    def fail(i, msg):
+        results[i] = dict(paths=[], complete=False, stats={}, fns=[], error=msg, smt={}, wall=0.0, case=CASES[i][0])
+
+    while todo or running:
+        while todo and len(running) < jobs:
+            i, attempt = todo.pop()
+            r, w = ctx.Pipe(duplex=False)
+            p = ctx.Process(target=_child, args=(i, w), daemon=True)
+            p.start()
+            w.close()
+            running[r] = (p, i, attempt, time.time())
+        for r in wait(list(running), timeout=0.5):
+            p, i, attempt, t0 = running.pop(r)
+            try:
+                results[i] = r.recv()
+            except (EOFError, OSError):
+                p.join(5)
+                if attempt == 0:
+                    todo.append((i, 1))
+                else:
+                    fail(i, f"worker process died twice without a result (exit code {p.exitcode})")
+            r.close()
+            p.join(5)
+        now = time.time()
+        for r, (p, i, attempt, t0) in list(running.items()):
+            if now - t0 > hard_timeout_s:
+                p.kill()
+                p.join(5)
+                running.pop(r)
+                r.close()
+                fail(i, "timeout")
+    return results
+
+
 def load_cases(mod, tier, seed):
     out = []
     for c in mod.cases(tier, seed):
@@ -153,10 +210,7 @@ def main():
         for i in range(len(CASES)):
             results[i] = _work(i)[1]
     else:
-        ctx = mp.get_context("fork")
-        with ctx.Pool(a.jobs, initializer=_init_worker, maxtasksperchild=int(OPTS.get("maxtasks", 40))) as pool:
-            for i, res in pool.imap_unordered(_work, range(len(CASES)), chunksize=1):
-                results[i] = res
+        results = run_cases(a.jobs, max([int(OPTS.get("case_budget_s", 300))] + [int((c[3] or {}).get("case_budget_s", 0)) for c in CASES]) + 240)
     # ---- aggregate ---------------------------------------------------------------------------
     agg = dict(cases=len(CASES), paths=0, obligations=0, trivial=0, solver=0, concrete=0, violated=0, unknown=0, forks=0,
                flips=0, complete_cases=0, queries=0, solver_s=0.0, tv_runs=0)
